@@ -22,6 +22,8 @@ Ltac kz :=
 
 Definition ended (e : option Z) : bool := match e with Some _ => true | None => false end.
 
+Lemma K_par_empty n : par_empty n = (n =? 0)%Z.
+Proof. unfold par_empty; kz. Qed.
 Lemma K_par_single n : par_single n = (n =? 1)%Z.
 Proof. unfold par_single; kz. Qed.
 Lemma K_par_n_lqueues n : par_n_lqueues n = (n - 1)%Z.
